@@ -32,7 +32,7 @@ META = dict(
     rule=("every code string of the bound over the complete code table of each sequence type "
           "(aa 25, dna 18, rna 18 codes), grouped by code multiset, every distinct permutation executed; "
           "every single insertion of ' ' and '*' into every such string, every double insertion into "
-          "strings of <= 2 codes; every FASTA text of <= 5 lines over {'>a','>b x','AC','G','',' ','A*C'}; "
+          "strings of <= 2 codes; every FASTA text of <= 5 lines over {'>a','>b x>y','AC','G','',' ','A*C'}; "
           "non-trivial = distinct undecorated string with >= 2 codes or an ambiguity code, distinct "
           "decorated string, FASTA text with a header followed by residues"),
     bound=dict(
@@ -77,7 +77,7 @@ REL_SAME = 1e-12  # same terms in another order / same value by another route
 QABS = 1e-12      # charges are small signed sums of values of magnitude <= 1
 NAME = "x"
 
-FASTA_LINES = (">a", ">b x", "AC", "G", "", " ", "A*C")
+FASTA_LINES = (">a", ">b x>y", "AC", "G", "", " ", "A*C")      # the second header has a description with a ">" inside the line
 EXTENSIONS = (".fna", ".ffn", ".faa", ".frn", ".fa", ".txt", "", ".fna.txt", ".frn.fa")
 
 
